@@ -1115,6 +1115,11 @@ class Bound(object):
         df = sy.diff(f, x)
         df2 = sy.diff(df, x)
         inv = sy.solve(f - y, x)
+        if hasattr(inv, "__len__") and len(inv) == 0:
+            # sympy may reject every root of an equation with float
+            # coefficients in its numerical self-check (e.g. an upper bound
+            # like -1.1666666666666667): take the unchecked roots instead
+            inv = sy.solve(f - y, x, check=False)
         if hasattr(inv, "__len__"):
             inv = inv[-1]
         return f, df, df2, inv
